@@ -789,9 +789,63 @@ def month_edges(y0, y1):
     return out
 
 
+# -- arguments that are equal in Python and different in Excel -----------------
+# A logical is not the serial that Python finds it equal to (True == 1 == 1.0,
+# False == 0): what a date function answers for a serial must not depend on a
+# logical having been given to it before (each sequence in a fresh process).
+AFTER_CALLS = [
+    ('YEAR', []), ('MONTH', []), ('DAY', []), ('WEEKDAY', []),
+    ('ISOWEEKNUM', []), ('EDATE', [0]), ('EDATE', [1]), ('EOMONTH', [0]),
+    ('DATEDIF', [40, 'D']), ('YEARFRAC', [367, 3]),
+]
+AFTER_OPENERS = (('logical-first', [True, False]),
+                 ('float-first', [1.0, 0.0]))
+
+
+def _fresh_calls(seq):
+    import json
+    import os
+    import subprocess
+    import sys
+    root = os.path.dirname(os.path.dirname(os.path.dirname(
+        os.path.abspath(__file__))))
+    p = subprocess.run(
+        [sys.executable, '-m', 'xlmc.checks.c18_proc', json.dumps(seq)],
+        cwd=root, stdout=subprocess.PIPE, stderr=subprocess.DEVNULL,
+        text=True, timeout=300)
+    if p.returncode != 0 or not p.stdout.strip():
+        return None
+    return json.loads(p.stdout.strip().splitlines()[-1])
+
+
+def run_after_logical(ctx):
+    probes = [[fn, [v] + rest] for fn, rest in AFTER_CALLS for v in (1, 0, 2)]
+    probes += [['DAYS', [32, 1]], ['DAYS', [1, 0]]]
+    base = _fresh_calls(probes)
+    inputs = {'kind': 'after-logical'}
+    if base is None:
+        from .. import runner
+        raise runner.HarnessError('c18_proc failed')
+    for oname, openers in AFTER_OPENERS:
+        opening = [[fn, [v] + rest] for fn, rest in AFTER_CALLS
+                   for v in openers]
+        opening += [['DAYS', [32, openers[0]]], ['DAYS', [openers[0], 0]]]
+        res = _fresh_calls(opening + probes)
+        tags = ['family:after-python-equal-argument', 'opener:' + oname]
+        if res is None:
+            ctx.fail('C18/after/%s/process' % oname, tags, inputs,
+                     'sequence runs', 'process failed')
+            continue
+        for (fn, args), got, want in zip(probes, res[len(opening):], base):
+            ctx.check('C18/after/%s/%s%r' % (oname, fn, tuple(args)), got,
+                      want, tags + ['fn:' + fn], inputs, True,
+                      note='fresh process: the same call after %s(%r, ...)'
+                      % (fn, openers[0]))
+
+
 def plan(tier):
     shards = [{'kind': 'region1900'}, {'kind': 'fractions'},
-              {'kind': 'outside'}]
+              {'kind': 'outside'}, {'kind': 'after-logical'}]
     if tier == 'thorough':
         step = 4000
         for lo in range(61, MAXS + 1, step):
@@ -833,6 +887,9 @@ def plan(tier):
 def run_shard(shard, ctx):
     kind = shard['kind']
     tier = ctx.tier
+    if kind == 'after-logical':
+        run_after_logical(ctx)
+        return
     if kind == 'region1900':
         run_region1900(ctx)
         ctx.count('serials_swept', 60)
@@ -906,6 +963,8 @@ def replay(inputs, ctx):
         run_serial(inputs['s'], ctx)
     elif kind == 'region1900':
         run_region1900(ctx)
+    elif kind == 'after-logical':
+        run_after_logical(ctx)
     elif kind == 'fractions':
         run_fractions(ctx)
     elif kind == 'date':
